@@ -353,7 +353,8 @@ class QCow2Snapshot:
 
         # Older versions may not have all the extra data fields
         # Instead of reading them manually, just pad the extra data to fit our struct
-        extra_data = self.qcow2.fh.read(self.header.extra_data_size)
+        known_extra_size = min(self.header.extra_data_size, len(c_qcow2.QCowSnapshotExtraData))
+        extra_data = self.qcow2.fh.read(known_extra_size)
         self.extra = c_qcow2.QCowSnapshotExtraData(extra_data.ljust(len(c_qcow2.QCowSnapshotExtraData), b"\x00"))
 
         unknown_extra_size = self.header.extra_data_size - len(c_qcow2.QCowSnapshotExtraData)
